@@ -221,7 +221,8 @@ def one_case(cs, idx, counters):
             vio.append({'key': 'genisoimage-fails:%s' % cls, 'detail': '%s: %s' % (optkey, last[:200])})
             return vio, opts, desc
         # -exclude matches the base name at every level
-        expected = {r: v for r, v in desc.items() if r.rsplit('/', 1)[-1] not in hidden_names}
+        # (a pattern that matches a directory's name takes the whole subtree out)
+        expected = {r: v for r, v in desc.items() if not (set(r.split('/')) & set(hidden_names))}
         data = open(iso, 'rb').read()
         dec = ecma119.decode(data)
         # extensions exactly as requested
